@@ -75,6 +75,15 @@ CLAIMED["C16"] = dict(
    note="'Never reads outside the response' is covered through the view clauses of C01 (trim_front/len) and Rust's bounds checks (an out-of-range index is a panic, which this check reports); no canary instrumentation is used.",
    technique="deterministic simulation with device-side fault injection (mbx_garbage, endless fragments) under two arithmetic profiles; panic/step monitors", section="DESIGN.md §4 C16")
 
+CLAIMED["C17"] = dict(
+   text="A physical DC model (tree of devices, per-link cable delays, per-device forwarding delays, local clocks with arbitrary offsets, 32/64 bit) lets the latching broadcast stamp every open port along the real path of the frame; 1..24 devices in chains, forks, crosses and nested junctions, mixed DC support, clock wrap forced to fall inside the frame's trip in a third of the runs, plus scripted impossible link reports. Oracle: reconstructed parent of every device == true parent (through a cfg-gated accessor), programmed delay non-decreasing in processing order, == true one-way delay on pure chains with equal delays (1 ns per hop), offset register == master time handed to init - latched receive time, static sync FRMW addresses the first DC device, impossible reports => error not panic.",
+   note="Junction devices are DC capable (a junction without port times makes what lies behind its ports unmeasurable for any master). On trees and with unequal delays exactness of the delay value is not required (the statement requires it on pure chains only); exact/inexact counts on trees are reported as probes.",
+   technique="deterministic simulation: real topology/DC code against a physical propagation model of the segment with seeded trees, delays and clock offsets", section="DESIGN.md §4 C17")
+CLAIMED["C18"] = dict(
+   text="1..8 devices with every mix of DC support and DcSync setting; periods, start delays and shifts from boundary sets up to and beyond 32 bit nanoseconds; the reference clock of the model is set to boundary and random 64 bit values for configure_dc_sync and for every tx_rx_dc cycle. Oracle: only DC capable devices that asked receive DC sync register writes; SYNC0 start is a multiple of the period in (ref+delay-period, ref+delay]; cycle registers and activation byte per mode; out-of-range period/delay and a missing reference clock give errors; CycleInfo == (ref mod period, period - offset + shift) for every value; run in a release build and in a build with overflow checks.",
+   note="The start-time interval is only evaluated when reference time + start delay fits 64 bits (otherwise an error is acceptable).",
+   technique="deterministic simulation: real DC configuration and cycle code against the segment model with a harness-controlled reference clock, seeded boundary inputs, two arithmetic profiles", section="DESIGN.md §4 C18")
+
 NA = {
  "C19": "pure function of its input (a proc-macro and the code it generates): no schedule, clock, fault, I/O or second party for a simulator to control; input generation alone is not simulation (DESIGN.md §4 C19)",
 }
